@@ -94,6 +94,11 @@ type Exec struct {
 	doneBlk  map[*ssa.BasicBlock]bool
 	boundedBy []string
 	nlanes   int
+	pruneDir string
+	instDone map[string]bool
+	prunePos string
+	pruneN   int
+	pruned   int
 	invHeader *ssa.BasicBlock // loop whose invariant is being evaluated
 }
 
@@ -480,6 +485,9 @@ func (e *Exec) step(s *State, in ssa.Instruction) {
 			c.oblige(e.obl("safety", "index", in), s.pc, c.B("(and (<= 0 %s) (< %s %s))", idx, idx, sl[2]))
 			n := cells(xt.Elem())
 			s.regs[x] = Val{sl[0], c.add(sl[1], c.mulK(idx, n))}
+			if e.root.spec != nil && e.root.spec.InstReads {
+				e.instantiateAt(s, sl[0], idx)
+			}
 		case *types.Pointer:
 			arr := xt.Elem().Underlying().(*types.Array)
 			p := e.val(s, x.X)
@@ -1487,6 +1495,32 @@ func (e *Exec) keepCells(s *State, kinds map[string]bool, pre map[string]string,
 			h := s.heaps[l.kind]
 			s.heaps[l.kind] = c.H("(store %s %s (store (select %s %s) %s %s))", h, f.obj, h, f.obj, addr, v)
 		}
+	}
+}
+
+// instantiateAt: the one-variable quantified hypotheses that talk about object
+// obj are instantiated at the index the code is about to read (an instance of a
+// universally quantified hypothesis is implied by it: always sound). E-matching
+// cannot find these instances when the index is an arithmetic term.
+func (e *Exec) instantiateAt(s *State, obj, idx string) {
+	c := e.c
+	if _, lit := isLit(obj); lit {
+		return
+	}
+	for _, name := range c.qorder {
+		qi := c.quants[name]
+		if len(qi.src) != 1 || qi.at > len(c.lines) || !strings.Contains(qi.body, obj) {
+			continue
+		}
+		key := name + "|" + idx
+		if e.root.instDone[key] {
+			continue
+		}
+		if e.root.instDone == nil {
+			e.root.instDone = map[string]bool{}
+		}
+		e.root.instDone[key] = true
+		c.emit(fmt.Sprintf("(assert (=> %s %s))", name, strings.ReplaceAll(qi.body, qi.smt[0], idx)), false)
 	}
 }
 
